@@ -1,3 +1,4 @@
+import AquaVerif.Proofs.Run
 import AquaVerif.Proofs.WaterDay
 /-
 Property C03 — soil water content and ponding stay within physical limits.
@@ -189,5 +190,29 @@ example : ∃ out, waterDay DayExample.Fq DayExample.Wq DayExample.fmq DayExampl
   refine ⟨out, h, hcr, day_inv h DayExample.dayPre _ _ DayExample.dayTrPre
     (fun _ => ⟨DayExample.Fq_gw.1, DayExample.Fq_gw.2.1, DayExample.Fq_gw.2.2.1⟩) hNo, ?_⟩
   exact (day_pond h DayExample.dayPre).2.1 (Or.inl rfl)
+
+
+/-! ### every simulated day of every run -/
+
+/-- **Run level.** Starting from an initial water content within limits, on every reachable day of
+every run every compartment satisfies `Cell.Inv` (air-dry ≤ θ ≤ saturation, adjusted field
+capacity within [FC, SAT]) and ponding is non-negative — by induction over the run (premises as
+in `C01.run_closes`). -/
+theorem run_inv {F : Fn α} {T : TrigFn α} {cfg : RunCfg α} {s : RunState α}
+    (hP : RunPre F cfg) (wp fc : Nat → α) (hr : RunReach F T cfg s)
+    (hOK : ∀ d ∈ s.daysRev, DayOK F wp fc d) :
+    WaterInv cfg s ∧ ∀ d ∈ s.daysRev, DayPre F d.P.W d.st.cells d.st.water ∧
+      (∀ y ∈ d.r.state.cells, y.Inv) ∧ 0 ≤ d.r.state.pond :=
+  Aqua.run_inv hP wp fc hr hOK
+
+/-- **Run level.** Ponded water is zero whenever no (effective) bunds are configured and never
+exceeds the bund height otherwise. -/
+theorem run_pond_bounds {F : Fn α} {T : TrigFn α} {cfg : RunCfg α} {s : RunState α}
+    (hP : RunPre F cfg) (wp fc : Nat → α) (hr : RunReach F T cfg s)
+    (hOK : ∀ d ∈ s.daysRev, DayOK F wp fc d) :
+    ∀ d ∈ s.daysRev, (d.P.fm.bunds = false ∨ d.P.fm.zBund ≤ 0.001 → d.r.state.pond = 0) ∧
+      (d.P.fm.bunds = true → d.st.pond ≤ d.P.fm.zBund → 0 ≤ d.r.flux.esPot →
+        0 ≤ d.r.flux.trPot → LagAerIntegral d.P.W → d.r.state.pond ≤ d.P.fm.zBund) :=
+  Aqua.run_pond_bounds hP wp fc hr hOK
 
 end Aqua.C03
